@@ -219,7 +219,7 @@ func Check(d Driver, o CheckOpts) int {
 	reported := 0
 	os.MkdirAll(o.ReplayDir, 0o755)
 	for ci, class := range classOrder {
-		if ci >= 3 {
+		if ci >= 5 {
 			break
 		}
 		v := newByClass[class]
